@@ -21,6 +21,11 @@ TRUSTED = ["rustc MIR / trait resolution", "std effect table", "std Mutex/Condva
 FORBIDDEN_UNDER_TODO = {"BLOCK-IO", "CHAN-RECV", "WAIT-TURN-W", "WAIT-TURN-R", "SLEEP", "JOIN", "USER-CALLBACK", "DYN-UNKNOWN", "FNPTR", "FS", "NET-CTL"}
 
 
+def Q_ret(p):
+    import queue_rules as Q
+    return Q._ret_str(p)
+
+
 def run(ctx):
     facts = ctx.facts
     roles.bind(facts)
@@ -46,11 +51,32 @@ def run(ctx):
     ctx.ob("C08.3", "accept-thread|shape", "the accept thread accepts connections, wraps each in a ClientConnection and hands it to the pool", len(accepts) == 1 and bool(spawns) and bool(ccnew), "%s:%d" % (a.file, a.line),
            "accept=%d dispatch=%d ClientConnection::new=%d" % (len(accepts), len(spawns), len(ccnew)))
     if len(accepts) == 1 and spawns and ccnew:
+        # path-wise (the wrapping and the dispatch may sit in different helpers, with the connection travelling through Option / Result
+        # in between): on every abstract path, a connection that was wrapped is handed to the pool before the thread accepts again or ends
+        import absint
+        def on_call(bb, t, args, st):
+            if bb in ccnew:
+                return ("sym", "connection@%d" % bb)
+            return None
+        ps = absint.explore(a, 0, None, on_call=on_call, max_visits=2, max_paths=20000, deep_events=True)
+        ctx.paths += len(ps)
+        lost = {}
+        for p in ps:
+            ev = p.calls()
+            for k, e in enumerate(ev):
+                if e[0] in ccnew:
+                    me = ("sym", "connection@%d" % e[0])
+                    handed = False
+                    for e2 in ev[k + 1:]:
+                        if e2[0] in spawns and any(absint.contains(x, me) for x in (e2[8] or e2[3])):
+                            handed = True
+                            break
+                        if e2[0] in accepts:
+                            break
+                    if not handed and (p.end[0] == "return" or any(e2[0] in accepts for e2 in ev[k + 1:])):
+                        lost[e[0]] = Q_ret(p)
         for i, cb in enumerate(ccnew):
-            reach = reach_variants(a, [a.normal_target(cb)], blocked=set(spawns), unwind=False)
-            ok = accepts[0] not in reach and not any(r in reach for r in a.returns())
-            ctx.paths += 1
-            ctx.ob("C08.3", "accept-thread|connection-spawned|%d" % i, "every accepted connection is handed to the pool before the next accept", ok, a.loc(cb))
+            ctx.ob("C08.3", "accept-thread|connection-spawned|%d" % i, "every accepted connection is handed to the pool before the next accept", cb not in lost and bool(ps), a.loc(cb), lost.get(cb))
         for i, sb in enumerate(spawns):
             again = a.reach([a.normal_target(sb)], blocked=set(accepts), unwind=False)
             ctx.ob("C08.3", "accept-thread|spawn-once|%d" % i, "a connection is spawned once (no second spawn without another accept)", not (again & set(spawns)), a.loc(sb))
